@@ -66,3 +66,10 @@ Proof.
   - intro r; destruct r; reflexivity.
   - intros [[]|]; reflexivity.
 Qed.
+
+(** the names of the sandbox sub directories (tcfs/sds.py) are the ones the model resolves relativities to *)
+Theorem tie_sds_dir_names :
+  (exists s, py_sds_SUB_DIRECTORY__ACT = VStr s /\ str_codes s = t_act) /\
+  (exists s, py_sds_SUB_DIRECTORY__TMP_USER = VStr s /\ str_codes s = t_tmp) /\
+  (exists s, py_sds_SUB_DIRECTORY__RESULT = VStr s /\ str_codes s = t_result).
+Proof. repeat split; eexists; split; reflexivity. Qed.
